@@ -3,12 +3,13 @@ import PsyVerif.Model.Copy
 open Proto C15
 
 /-! Driver of the C15 model.  One line =
-`(mode (nsym nnode nif) ((name (dep ...) iface fresh) ...) (access ...) (tree ...) r (edit ...))` with
-`tree = (id kind sym tsym table (child ...))`, `sym`/`tsym` = `-1` for None, `table` = `-` or a list
-of symbol ids; `mode` = `deployed`, `fixed` or `pinned`.  The answer is the world after
-`copy r` and the world after the edits, each dumped as
-`((nsym nnode nif) ((name (dep ...) iface fresh) ...) (access ...) (tree ...))`, followed by two flags:
-view of the copy = view of the original subtree at copy time, views of the original trees kept. -/
+`(mode (nsym nnode nif) (sym ...) (access ...) (tree ...) r (edit ...))` with
+`sym = (name (link ...) (tree ...) (tree ...) iface fresh)` (direct links, expression forest of the
+datatype, expression forest of the initial value), `tree = (id kind sym tsym table (child ...))`,
+`sym`/`tsym` = `-1` for None, `table` = `-` or a list of symbol ids; `mode` = `deployed`, `pinned`
+(no repair) or `dtonly` (datatype repair only).  The answer is the world after `copy r` and the
+world after the edits, each dumped in the same format, followed by two flags: view of the copy =
+view of the original subtree at copy time, views of the original trees kept. -/
 
 def optOf (s : Sexp) : Option Nat :=
   match s.int? with
@@ -25,32 +26,53 @@ partial def mkForest : List Sexp → Forest
       let table : Option (List Nat) := match tab with
         | .atom _ => none
         | .list xs => some (xs.filterMap Sexp.nat?)
-      .cons ⟨i.nat?.getD 0, k.nat?.getD 0, optOf s, optOf ts, table⟩ (mkForest kids.items) (mkForest rest)
+      .cons ⟨i.nat?.getD 0, k.nat?.getD 0, optOf s, optOf ts, table, none⟩ (mkForest kids.items) (mkForest rest)
     | _ => mkForest rest
 
+def forestOf (s : Sexp) : Forest :=
+  match s with
+  | .list xs => mkForest xs
+  | _ => .nil
+
+structure SymRec where
+  name : Nat := 0
+  links : List Nat := []
+  bounds : Forest := .nil
+  init : Forest := .nil
+  iface : Nat := 0
+  fresh : Bool := false
+
 def mkWorld (hdr syms acc trees : Sexp) : World :=
-  let recs : Array (Nat × List Nat × Nat × Bool) := (syms.items.map fun s =>
+  let recs : Array SymRec := (syms.items.map fun s =>
     match s.items with
-    | [n, d, i, f] => (n.nat?.getD 0, d.natList, i.nat?.getD 0, f.nat?.getD 0 != 0)
-    | _ => (0, [], 0, false)).toArray
+    | [n, l, b, i, f, fr] =>
+      { name := n.nat?.getD 0, links := l.natList, bounds := forestOf b, init := forestOf i,
+        iface := f.nat?.getD 0, fresh := fr.nat?.getD 0 != 0 }
+    | _ => {}).toArray
   let accs : Array Nat := acc.natList.toArray
   let (ns, nn, ni) := match hdr.items with
     | [a, b, c] => (a.nat?.getD 0, b.nat?.getD 0, c.nat?.getD 0)
     | _ => (0, 0, 0)
-  { name := fun i => (recs.getD i (0, [], 0, false)).1
-    deps := fun i => (recs.getD i (0, [], 0, false)).2.1
-    iface := fun i => (recs.getD i (0, [], 0, false)).2.2.1
-    freshIface := fun i => (recs.getD i (0, [], 0, false)).2.2.2
+  { name := fun i => (recs.getD i {}).name
+    links := fun i => (recs.getD i {}).links
+    bounds := fun i => (recs.getD i {}).bounds
+    init := fun i => (recs.getD i {}).init
+    iface := fun i => (recs.getD i {}).iface
+    freshIface := fun i => (recs.getD i {}).fresh
     access := fun i => accs.getD i 0
+    attrVal := fun _ => 0
     nsym := ns, nnode := nn, nif := ni
     trees := trees.items.map fun t => mkForest [t] }
 
 def parseEdit (s : Sexp) : Option Edit :=
   match s.items with
   | [.atom "rename", p, a, n] => do pure (.rename (← p.nat?) (← a.nat?) (← n.nat?))
-  | [.atom "setdeps", a, ds] => do pure (.setDeps (← a.nat?) ds.natList)
-  | [.atom "addsym", p, n, ds, f] => do pure (.addSym (← p.nat?) (← n.nat?) ds.natList ((← f.nat?) != 0))
+  | [.atom "setdecl", a, l, b, i] => do pure (.setDecl (← a.nat?) l.natList (forestOf b) (forestOf i))
+  | [.atom "addsym", p, n, l, b, i, f] =>
+    do pure (.addSym (← p.nat?) (← n.nat?) l.natList (forestOf b) (forestOf i) ((← f.nat?) != 0))
   | [.atom "setaccess", i, v] => do pure (.setAccess (← i.nat?) (← v.nat?))
+  | [.atom "setiface", a, v] => do pure (.setIface (← a.nat?) (← v.nat?))
+  | [.atom "setfresh", a, b] => do pure (.setFresh (← a.nat?) ((← b.nat?) != 0))
   | [.atom "removesym", p, a] => do pure (.removeSym (← p.nat?) (← a.nat?))
   | [.atom "setsym", p, a] => do pure (.setSym (← p.nat?) (optOf a))
   | [.atom "settsym", p, a] => do pure (.setTSym (← p.nat?) (optOf a))
@@ -69,35 +91,38 @@ partial def showForest : Forest → List String
       (match n.table with | none => "-" | some l => showList toString l) ++ " (" ++
       " ".intercalate (showForest k) ++ "))") :: showForest r
 
+def showF (f : Forest) : String := "(" ++ " ".intercalate (showForest f) ++ ")"
+
 @[noinline] def showWorld (W : World) : String :=
   "((" ++ toString W.nsym ++ " " ++ toString W.nnode ++ " " ++ toString W.nif ++ ") " ++
-    showList (fun s => "(" ++ toString (W.name s) ++ " " ++ showList toString (W.deps s) ++ " " ++
+    showList (fun s => "(" ++ toString (W.name s) ++ " " ++ showList toString (W.links s) ++ " " ++
+      showF (W.bounds s) ++ " " ++ showF (W.init s) ++ " " ++
       toString (W.iface s) ++ " " ++ (if W.freshIface s then "1" else "0") ++ ")") (List.range W.nsym) ++ " " ++
     showList (fun i => toString (W.access i)) (List.range W.nif) ++
     " (" ++ " ".intercalate (W.trees.flatMap showForest) ++ "))"
 
 /-- freeze the symbol store into arrays so that later queries do not re-run closures -/
 @[noinline] def freeze (W : World) : World :=
-  let names := ((List.range W.nsym).map W.name).toArray
-  let deps := ((List.range W.nsym).map W.deps).toArray
-  let ifs := ((List.range W.nsym).map W.iface).toArray
-  let frs := ((List.range W.nsym).map W.freshIface).toArray
+  let recs : Array SymRec := ((List.range W.nsym).map fun s =>
+    ({ name := W.name s, links := W.links s, bounds := W.bounds s, init := W.init s,
+       iface := W.iface s, fresh := W.freshIface s } : SymRec)).toArray
   let acc := ((List.range W.nif).map W.access).toArray
-  { W with name := fun i => names.getD i 0, deps := fun i => deps.getD i [],
-           iface := fun i => ifs.getD i 0, freshIface := fun i => frs.getD i false,
+  { W with name := fun i => (recs.getD i {}).name, links := fun i => (recs.getD i {}).links,
+           bounds := fun i => (recs.getD i {}).bounds, init := fun i => (recs.getD i {}).init,
+           iface := fun i => (recs.getD i {}).iface, freshIface := fun i => (recs.getD i {}).fresh,
            access := fun i => acc.getD i 0 }
 
 def handle (s : Sexp) : String :=
   match s.items with
   | [mode, hdr, syms, acc, trees, r, edits] =>
-    let fx := match mode with
-      | .atom "fixed" => true
-      | .atom "pinned" => false
+    let m : Mode := match mode with
+      | .atom "pinned" => ⟨false, false⟩
+      | .atom "dtonly" => ⟨true, false⟩
       | _ => deployed
     let W := mkWorld hdr syms acc trees
     let root := r.nat?.getD 0
-    let W1 := freeze (copy fx W root)
-    let C := copyTree fx W root
+    let W1 := freeze (copy m W root)
+    let C := copyTree m W root
     match edits.items.mapM parseEdit with
     | none => "bad-edit"
     | some es =>
